@@ -333,6 +333,21 @@ func runC05(c *Ctx) {
 	for i := 0; i < nalt; i++ {
 		c05Alter(c, r.Fork())
 	}
+	// frames with an empty payload (for method None the frame is its header alone), first, last and between others
+	for mi := 0; mi < 3; mi++ {
+		for _, sq := range []*c05Seq{
+			seqOf(mi, []byte{}),
+			seqOf(mi, []byte{}, 1, []byte("next frame")),
+			seqOf(1, []byte("previous frame"), mi, []byte{}),
+			seqOf(2, []byte("a"), mi, []byte{}, 0, []byte("b")),
+		} {
+			for j := range sq.frames {
+				if len(sq.payloads[j]) == 0 {
+					c05AlterSeq(c, r.Fork(), sq, j)
+				}
+			}
+		}
+	}
 
 	// --- 4. hostile size fields: rejected before allocating
 	c05Limits(c, r.Fork())
@@ -510,12 +525,34 @@ func c05Sequence(c *Ctx, r *Rng, _ int) {
 func lengthField(off int) bool { return off >= 17 && off < 25 }
 
 func c05Alter(c *Ctx, r *Rng) {
-	R := c.R
 	s := genSeq(r, 120)
 	if len(s.frames) == 0 {
 		return
 	}
-	j := r.Intn(len(s.frames))
+	c05AlterSeq(c, r, s, r.Intn(len(s.frames)))
+}
+
+// a sequence of frames with given (method index, payload) pairs
+func seqOf(parts ...any) *c05Seq {
+	s := &c05Seq{}
+	for i := 0; i+1 < len(parts); i += 2 {
+		mv := c05Methods[parts[i].(int)]
+		p := parts[i+1].([]byte)
+		f, err := compressReal(mv.m, mv.level, p)
+		if err != nil {
+			continue
+		}
+		s.payloads = append(s.payloads, p)
+		s.methods = append(s.methods, mv.name)
+		s.frames = append(s.frames, f)
+		s.stream = append(s.stream, f...)
+	}
+	return s
+}
+
+// every byte of frame j of the sequence altered, reads continued after the error
+func c05AlterSeq(c *Ctx, r *Rng, s *c05Seq, j int) {
+	R := c.R
 	start := 0
 	for i := 0; i < j; i++ {
 		start += len(s.frames[i])
